@@ -2,7 +2,8 @@
    The model is of the repaired code (http-proxy: one reader per leg, no added User-Agent,
    no stray CRLF after a HEAD reply; copy/dns-proxy: dispatch on the local address;
    dns-proxy: length-framed messages over a stream, every forwarded datagram recorded;
-   ssh-proxy: the request goroutine closes nothing, a close waits for a reply in flight). *)
+   ssh-proxy: the request goroutine closes nothing, a close waits for a reply in flight, the
+   client's EOF is forwarded; copy relays until both directions have ended). *)
 From HT Require Import Common.Bytes C15.Model C15.Proofs.
 From Coq Require Import Permutation.
 Open Scope Z_scope.
@@ -157,46 +158,42 @@ Proof. exact concurrent_raw_no_interference. Qed.
 
 (* ---- both directions, with half-close (copy over a stream; ssh channels) ---- *)
 
-(* for every schedule of writes and ends of direction, and every relay policy: exactly what
+(* for every schedule of writes and ends of direction, and either relay policy: exactly what
    was written before the relay stops is delivered, in both directions ... *)
-Theorem C15_duplex_delivers_until_stop : forall p q l,
-  d_up (duplex_run p q l) = ups (before_stop p q l) /\ d_down (duplex_run p q l) = downs (before_stop p q l).
+Theorem C15_duplex_delivers_until_stop : forall p l,
+  d_up (duplex_run p l) = ups (until_stop p false false l) /\
+  d_down (duplex_run p l) = downs (until_stop p false false l).
 Proof. exact duplex_spec. Qed.
 
 (* ... hence never anything but a prefix of what was written *)
-Theorem C15_duplex_delivers_prefix : forall p q l,
-  (exists x, ups l = d_up (duplex_run p q l) ++ x) /\ (exists y, downs l = d_down (duplex_run p q l) ++ y).
+Theorem C15_duplex_delivers_prefix : forall p l,
+  (exists x, ups l = d_up (duplex_run p l) ++ x) /\ (exists y, downs l = d_down (duplex_run p l) ++ y).
 Proof. exact duplex_prefix. Qed.
 
-(* copy: whatever the schedule - in particular when the client ends its direction first and
-   the backend answers only afterwards, late, at length - the client receives everything
-   the backend wrote (the backend writes nothing after its own end of direction) *)
-Theorem C15_copy_reply_survives_client_half_close : forall l,
-  b_quiet_after_eof l -> d_down (copy_duplex l) = downs l.
-Proof. exact copy_down_complete. Qed.
+(* copy: whatever the order in which the two directions end - the client first and the
+   backend answering only afterwards, late, at length; or the backend first while the client
+   is still sending - everything the client wrote reaches the backend and everything the
+   backend wrote reaches the client ([sched_ok]: a side writes nothing after its own end) *)
+Theorem C15_copy_both_directions_complete : forall l, sched_ok false false l ->
+  d_up (copy_duplex l) = ups l /\ d_down (copy_duplex l) = downs l.
+Proof. exact copy_duplex_complete. Qed.
 
-(* copy: the client's end of direction reaches the backend and the relay goes on *)
-Theorem C15_copy_forwards_half_close : forall pre,
-  d_alive (fold_left (dstep false true) pre dst0) = true ->
-  let s := fold_left (dstep false true) (pre ++ [DCEof]) dst0 in d_alive s = true /\ d_beof s = true.
-Proof. exact copy_forwards_half_close. Qed.
+(* copy: the relay stops exactly when both directions have ended *)
+Theorem C15_copy_stops_when_both_directions_ended : forall l, sched_ok false false l ->
+  d_alive (copy_duplex l) = negb (existsb is_ceof l && existsb is_beof l).
+Proof. exact copy_stops_when_both_ended. Qed.
 
-(* copy: the backend receives everything the client wrote, provided the client has written
-   it before the backend ends its direction ... *)
-Theorem C15_copy_request_complete_before_backend_end : forall l,
-  c_done_before_beof l -> d_up (copy_duplex l) = ups l.
-Proof. exact copy_up_complete. Qed.
+(* ssh-proxy: the client's end of input is passed on as such and the session goes on until
+   the backend's direction ends: everything the backend writes - also after the client's
+   EOF - reaches the client ... *)
+Theorem C15_ssh_backend_data_after_client_eof_delivered : forall l, sched_ok false false l ->
+  d_down (ssh_duplex l) = downs l.
+Proof. exact ssh_duplex_down_complete. Qed.
 
-(* ... defects of the unchanged code: copy stops when the backend's direction ends, cutting
-   a client that is still sending; ssh-proxy stops at the FIRST end of direction, so the
-   backend's output after the client's end of input is lost *)
-Theorem C15_copy_client_data_after_backend_end_refuted :
-  exists l, b_quiet_after_eof l /\ d_up (copy_duplex l) <> ups l.
-Proof. exact copy_client_data_after_backend_eof_refuted. Qed.
-
-Theorem C15_ssh_half_close_refuted :
-  exists l, b_quiet_after_eof l /\ d_down (ssh_duplex l) <> downs l.
-Proof. exact ssh_half_close_refuted. Qed.
+(* ... and the backend everything the client wrote before the backend's direction ended *)
+Theorem C15_ssh_client_data_before_backend_end_delivered : forall l, c_done_before_beof l ->
+  d_up (ssh_duplex l) = ups l.
+Proof. exact ssh_duplex_up_complete. Qed.
 
 (* ---- ssh-proxy (message level) ---- *)
 
@@ -273,8 +270,7 @@ Print Assumptions C15_ssh_close_delivers_all.
 Print Assumptions C15_concurrent_connections_independent.
 Print Assumptions C15_duplex_delivers_until_stop.
 Print Assumptions C15_duplex_delivers_prefix.
-Print Assumptions C15_copy_reply_survives_client_half_close.
-Print Assumptions C15_copy_forwards_half_close.
-Print Assumptions C15_copy_request_complete_before_backend_end.
-Print Assumptions C15_copy_client_data_after_backend_end_refuted.
-Print Assumptions C15_ssh_half_close_refuted.
+Print Assumptions C15_copy_both_directions_complete.
+Print Assumptions C15_copy_stops_when_both_directions_ended.
+Print Assumptions C15_ssh_backend_data_after_client_eof_delivered.
+Print Assumptions C15_ssh_client_data_before_backend_end_delivered.
